@@ -30,7 +30,7 @@ MODULES = {
     'key_codes': dict(src='key_codes.rs', structural=['KeyCode'], post=KEYCODE_DISPLAY),
     'events': dict(src='events.rs', structural=['Event']),
     'keys': dict(src='keys.rs', drop_clone=['Mapping', 'Repeat']),
-    'key_transforms': dict(src='key_transforms.rs', n2=True),
+    'key_transforms': dict(src='key_transforms.rs', n2=True, n4=True),
     'fancy_keys': dict(src='fancy_keys.rs', structural=['Row'], move_display=True),
     'fancy_layout_interpreting': dict(src='fancy_layout_interpreting.rs', n1=True,
                                       n3=['iterate_combinations']),
@@ -56,6 +56,7 @@ def extract(name, text, log):
     if cfg.get('n1'): text = n1_refpats(text, log)
     if cfg.get('n2'): text = n2_retain(text, log)
     if cfg.get('n3'): text = n3_for_user_iter(text, log, cfg['n3'])
+    if cfg.get('n4'): text = n4_iter_any(text, log)
     return text
 
 
